@@ -340,12 +340,16 @@ class Runner:
         self.ctx, self.bct = ctx, bct
         self.lines, self.pend = [], []
         self.seen = set()
+        self.timeouts = {}          # routine -> number of calls that did not terminate
 
     def impl(self, f, M, key, case, scale_pow=0):
+        if self.timeouts.get(key, 0) >= 3:
+            return None             # this routine hangs (reported three times with concrete inputs): stop calling it
         try:
             # lengths = integers * 2**scale_pow: exact in binary64 (numerators < 2**40, sums of <= 7 of them < 2**53)
             return call(f, M.astype(float) * (2.0 ** scale_pow), _t=10.0)
         except Timeout:
+            self.timeouts[key] = self.timeouts.get(key, 0) + 1
             self.ctx.fail(key + ':raises', 'does not terminate within 10 s', case)
         except Exception as e:
             self.ctx.fail(key + ':raises', 'raised %r' % (e,), case)
